@@ -28,3 +28,50 @@ M("c20_overflow_wraps", "C20", "ak/short_uuid.py",
 B("c20_local_rename", "C20", "ak/short_uuid.py",
   "    alpha_len = len(_ALPHABET)\n    for char in string[::-1]:\n        number = number * alpha_len + _INDEX_ALPHABET[char]",
   "    base = len(_ALPHABET)\n    for char in reversed(string):\n        number = number * base + _INDEX_ALPHABET[char]")
+
+# ---------------------------------------------------------------- C01
+M("c01_splice_reversed", "C01", "ak/llparser.py",
+  "                        t_elem.value.extend(suffix_elem.value)",
+  "                        t_elem.value.extend(suffix_elem.value[::-1])")
+M("c01_rollback_keeps_cursor", "C01", "ak/llparser.py",
+  "        self.values = []\n        self.cur_token_pos = self.start_token_pos\n        self.cur_prod_id += 1",
+  "        self.values = []\n        self.cur_prod_id += 1")
+M("c01_rollback_keeps_values", "C01", "ak/llparser.py",
+  "        self.values = []\n        self.cur_token_pos = self.start_token_pos\n        self.cur_prod_id += 1",
+  "        self.values = self.values[:0] if len(self.values) != 2 else self.values[:1]\n        self.cur_token_pos = self.start_token_pos\n        self.cur_prod_id += 1")
+M("c01_suffix_not_popped_when_empty", "C01", "ak/llparser.py",
+  "                    suffix_elem = t_elem.value.pop()\n                    if suffix_elem.value is not None:",
+  "                    suffix_elem = t_elem.value[-1]\n                    if suffix_elem.value is not None:\n                        t_elem.value.pop()")
+M("c01_keyword_before_synonym", "C01", "ak/llparser.py",
+  "                        keyword_token = self.keywords.get((token_name, value))",
+  "                        keyword_token = self.keywords.get((match.lastgroup, value))")
+M("c01_nested_suffix_dropped", "C01", "ak/llparser.py",
+  "                    if suffix_elem.value is not None:\n                        t_elem.value.extend(suffix_elem.value)",
+  "                    if suffix_elem.value is not None:\n                        t_elem.value.extend(\n                            x for x in suffix_elem.value if x.value is not None or x.name in self.terminals)")
+
+# ---------------------------------------------------------------- C02
+M("c02_revert_follow_overapprox", "C02", "ak/llparser.py",
+  "                            follow_sets[cur_symbol].update(first_sets[next_symbol])\n",
+  "                            follow_sets[cur_symbol].update(first_sets[next_symbol])\n"
+  "                            if next_symbol in nullables:\n"
+  "                                follows_deps[cur_symbol].add(next_symbol)\n")
+M("c02_follow_dep_on_parent_dropped", "C02", "ak/llparser.py",
+  "                        follows_deps[cur_symbol].add(non_term)", "                        pass")
+M("c02_first_stops_at_nullable", "C02", "ak/llparser.py",
+  "                        if symbol not in nullables:\n                            break\n            if not fsets_updated:",
+  "                        break\n            if not fsets_updated:")
+M("c02_table_ignores_follow_for_nullable_prod", "C02", "ak/llparser.py",
+  "                    start_symbols |= follow_sets[non_term]",
+  "                    start_symbols |= follow_sets[non_term] - first_sets[non_term]")
+# (a mutant dropping one alternative during the 'smart' undo of a factorization is NOT in the
+# catalogue: the un-factored group is ambiguous by construction, so neither C01 (soundness of
+# trees), C02 (exactness for conflict-free tables) nor C03 speak about it)
+M("c02_follow_single_pass", "C02", "ak/llparser.py",
+  "                sets_updated |= len(follow_set) != orig_len\n            if not sets_updated:\n                break",
+  "                sets_updated |= len(follow_set) != orig_len\n            break")
+M("c02_end_token_not_in_follow_of_start", "C02", "ak/llparser.py",
+  "        follow_sets[start_symbol_name].add(cls._END_TOKEN_NAME)",
+  "        follow_sets[start_symbol_name].add(cls._END_TOKEN_NAME) if len(prods_map) < 3 else None")
+M("c02_is_ambiguous_gt2", "C02", "ak/llparser.py",
+  "        return any(len(prods) != 1 for prods in self.parse_table.values())",
+  "        return any(len(prods) > 2 for prods in self.parse_table.values())")
